@@ -2,7 +2,7 @@
   **File-system round trip**: `UnTar` of the archive of a well-formed tree onto a destination that does
   not exist yet returns nil and leaves, at and beneath the destination, exactly the tree — every
   directory, file, symbolic link and device node at its path with its contents / target / device numbers,
-  the attribute stamp the options ask for and the archived modification time set explicitly, also on the
+  the owner, mode and extended attributes the options ask for and the archived modification time set explicitly, also on the
   directories that got children after they were created (that is what `finish` is for).
 
   * `LocalFSRoundTripBridge` : `untarFS` = apply the nodes of `untar`, then `finish`
@@ -70,8 +70,9 @@ def rootMtime (r : FileRec) (cs : List Tree) (M₁ : Option Nat) : Option Nat :=
 /-- everything after the root node: the children are written into the destination directory (object
     `.dir A M₁`, nothing beneath it), then `finish` runs -/
 theorem untar_children (o : Opts) (root : List Name) (r : FileRec) (cs : List Tree) (s1 : LState)
-    (A M₁ : Option Nat) (hrv : ∀ c ∈ root, validName c = true) (hshort : Short root)
+    (A : Attr) (M₁ : Option Nat) (hrv : ∀ c ∈ root, validName c = true) (hshort : Short root)
     (hne : root ≠ []) (hcs : Tree.WFList r.path [r.path] cs) (hnames : (Tree.dir r cs).Names)
+    (hfit : ∀ f ∈ Tree.recordsList cs, XattrsFit o f)
     (hroot1 : s1.fs.get root = some (.dir A M₁)) (hAD : AllDirs s1.fs root)
     (hnd1 : ∀ q, root <+: q → q ≠ root → s1.fs.get q = none)
     (ht1 : s1.dirTimes = if r.mtime = 0 then [] else [(root, r.mtime.toNat)]) :
@@ -89,7 +90,7 @@ theorem untar_children (o : Opts) (root : List Name) (r : FileRec) (cs : List Tr
       subst he
       exact ⟨normal_of_valid hrv, hshort, hne, hAD⟩
   obtain ⟨s2, h2, g2, t2, htg2⟩ := apply_list o root hrv hshort cs [dot] [] root r.path
-    [r.path] s1 rep_dot (by simp) (by intro c hc; cases hc) hcs hnms hnd hAD
+    [r.path] s1 rep_dot (by simp) (by intro c hc; cases hc) hcs hnms hfit hnd hAD
     (by
       intro t _ q hq
       exact hnd1 q ((List.prefix_append _ _).trans hq) (region_ne_par hq))
@@ -136,9 +137,16 @@ theorem untar_children (o : Opts) (root : List Name) (r : FileRec) (cs : List Tr
     * `hfresh`: nothing exists at or beneath the destination;
     * `hrk hrx hsize hcs`: the hypotheses of `untar_tar_tree` (the tree is what a file-system reader
       produces);
-    * `hnames`: names in the tree fit `NAME_MAX`, siblings have distinct names (recursively).
+    * `hnames`: names in the tree fit `NAME_MAX`, siblings have distinct names (recursively);
+    * `hfit`: when owner and extended attributes are restored (`noSameOwner = false`), no symbolic link or
+      device record carries a `user.*` extended attribute (the kernel refuses those: EPERM, and `UnTar`
+      fails — `createSymlink_user_xattr_fails`).
+    (That the extended-attribute keys of one record are pairwise distinct is part of `XattrsOK`, hence of
+    `hrx` and `hcs`.)
     Conclusion: `UnTar` returns nil, and at every path at or beneath the destination the file system
-    holds exactly what the tree says — for a directory the stamp and the archived mtime (`mtimeOf`:
+    holds exactly what the tree says — for a directory its attributes (`attrOfRec`: archived owner, archived
+    permission + set-id + sticky bits, archived xattrs, as far as the options restore them) and the archived
+    mtime (`mtimeOf`:
     `some mtime`, or `none` when the archived mtime is 0, in which case `LocalFS` never sets one),
     whether or not it got children after it was created. -/
 theorem untar_creates_tree (o : Opts) (root : List Name) (fs : FS) (r : FileRec) (cs : List Tree)
@@ -148,11 +156,12 @@ theorem untar_creates_tree (o : Opts) (root : List Name) (fs : FS) (r : FileRec)
     (hrk : r.kind = .dir) (hrx : XattrsOK r.xattrs) (hsize : 16 + (cs.length + 1) * 24 < 2 ^ 64)
     (hcs : Tree.WFList r.path [r.path] cs)
     (hnames : (Tree.dir r cs).Names)
+    (hfit : ∀ f ∈ (Tree.dir r cs).records, XattrsFit o f)
     (hb : tarStream (Tree.dir r cs).records = some b) :
     (untarFS o root fs b).2 = true ∧
     ∀ p, root <+: p →
       ((untarFS o root fs b).1).get p =
-        (((root, Obj.dir (stampOf o r) (mtimeOf r)) :: Tree.expectList o root cs).lookup p) := by
+        (((root, Obj.dir (attrOfRec o r) (mtimeOf r)) :: Tree.expectList o root cs).lookup p) := by
   obtain ⟨b', hb', hun⟩ := untar_tar_tree r cs hrk hrx hsize hcs
   rw [hb] at hb'
   cases hb'
@@ -165,10 +174,10 @@ theorem untar_creates_tree (o : Opts) (root : List Name) (fs : FS) (r : FileRec)
     ⟨normal_of_valid hroot.comps_valid, hshort, hroot.ne, properDirs_root hroot⟩
   have hn := hfresh root (List.prefix_refl _)
   obtain ⟨s1, h1, hc, ht1⟩ := createDir_fresh o root { fs := fs } [dot] (metaOf r)
-    (by rw [hdst]; exact hG) (by rw [hdst]; exact hn)
+    (by rw [hdst]; exact hG) (by rw [hdst]; exact hn) hrx.2
   rw [hdst] at hc ht1
   simp only [List.nil_append] at ht1
-  have hc' : Creates fs s1.fs root (.dir (stampM o (metaOf r)) (mtimeM (metaOf r))) := hc
+  have hc' : Creates fs s1.fs root (.dir (attrM o (metaOf r)) (mtimeM (metaOf r))) := hc
   have hAD : AllDirs s1.fs root := by
     intro Q R e hQ
     rw [hc' Q]
@@ -190,7 +199,7 @@ theorem untar_creates_tree (o : Opts) (root : List Name) (fs : FS) (r : FileRec)
     rw [hc' q, if_neg hne, if_neg hne']
     exact hfresh q hq
   obtain ⟨fs', hf, hg⟩ := untar_children o root r cs s1 _ _ hroot.comps_valid hshort hroot.ne hcs
-    hnames hc'.get_self hAD hnd1 ht1
+    hnames (fun f hf => hfit f (by simp [Tree.records, hf])) hc'.get_self hAD hnd1 ht1
   rw [applyAll_cons_ok o root (by simpa [applyNode, metaOf] using h1), hf]
   refine ⟨rfl, ?_⟩
   intro p hp
@@ -200,31 +209,43 @@ theorem untar_creates_tree (o : Opts) (root : List Name) (fs : FS) (r : FileRec)
     by_cases h0 : r.mtime = 0
     · simp [h0, mtimeM, metaOf]
     · simp [h0]
-  rw [this, stampOf_eq]
+  rw [this, attrOfRec_eq]
 
-/-- the attribute stamp `setPerms` leaves on the destination directory when it existed before with
-    stamp `a₀` -/
-def stampOnto (o : Opts) (f : FileRec) (a₀ : Option Nat) : Option Nat :=
-  if o.noSameOwner && o.noSamePermissions then a₀
-  else some (attrOf ⟨f.uid, f.gid, f.mode, f.mtime, f.xattrs⟩)
+/-- the attributes `setPerms` leaves on the destination directory when it existed before with attributes
+    `a₀`: under `noSameOwner` it keeps its owner and its extended attributes, otherwise it gets the archived
+    owner, and the archived extended attributes are set one by one (`xaSet`) on top of its own; under
+    `noSamePermissions` it keeps its mode (a directory's set-id bits survive `chown`), otherwise it gets the
+    archived one -/
+def attrOnto (o : Opts) (f : FileRec) (a₀ : Attr) : Attr :=
+  { owner := if o.noSameOwner then a₀.owner else some (f.uid.toNat, f.gid.toNat)
+    mode := if o.noSamePermissions then a₀.mode else some (f.mode.toNat % 4096)
+    xattrs := if o.noSameOwner then a₀.xattrs
+      else f.xattrs.foldl (fun m kv => xaSet m kv.1 kv.2) a₀.xattrs }
+
+theorem permsAttr_dir (o : Opts) (f : FileRec) (a₀ : Attr) :
+    permsAttr o (metaOf f) true a₀ = attrOnto o f a₀ := by
+  unfold permsAttr attrOnto
+  cases o.noSameOwner <;> cases o.noSamePermissions <;> rfl
 
 /-- **the same onto an existing, empty, real directory**: no `mkdir`; the destination keeps its old
-    stamp `a₀` unless the options ask for the archived one; its mtime is the archived one, or — when
+    owner / mode / extended attributes where the options skip the call and gets the archived ones otherwise
+    (`attrOnto`); its mtime is the archived one, or — when
     the archive records none (0) — the old one `m₀` if the tree has no children and "now" otherwise.
     Everything beneath the destination is exactly the tree, as in `untar_creates_tree`. -/
 theorem untar_into_empty_dir (o : Opts) (root : List Name) (fs : FS) (r : FileRec) (cs : List Tree)
-    (b : Bytes) (a₀ m₀ : Option Nat)
+    (b : Bytes) (a₀ : Attr) (m₀ : Option Nat)
     (hroot : RootOK fs root) (hshort : Short root)
     (hdir : fs.get root = some (.dir a₀ m₀))
     (hempty : ∀ p, root <+: p → p ≠ root → fs.get p = none)
     (hrk : r.kind = .dir) (hrx : XattrsOK r.xattrs) (hsize : 16 + (cs.length + 1) * 24 < 2 ^ 64)
     (hcs : Tree.WFList r.path [r.path] cs)
     (hnames : (Tree.dir r cs).Names)
+    (hfit : ∀ f ∈ (Tree.dir r cs).records, XattrsFit o f)
     (hb : tarStream (Tree.dir r cs).records = some b) :
     (untarFS o root fs b).2 = true ∧
     ∀ p, root <+: p →
       ((untarFS o root fs b).1).get p =
-        (((root, Obj.dir (stampOnto o r a₀) (rootMtime r cs m₀)) :: Tree.expectList o root cs).lookup p) := by
+        (((root, Obj.dir (attrOnto o r a₀) (rootMtime r cs m₀)) :: Tree.expectList o root cs).lookup p) := by
   obtain ⟨b', hb', hun⟩ := untar_tar_tree r cs hrk hrx hsize hcs
   rw [hb] at hb'
   cases hb'
@@ -253,7 +274,7 @@ theorem untar_into_empty_dir (o : Opts) (root : List Name) (fs : FS) (r : FileRe
     rw [hoth' q hne]
     exact hempty q hq hne
   obtain ⟨fs', hf, hg⟩ := untar_children o root r cs s1 _ _ hroot.comps_valid hshort hroot.ne hcs
-    hnames hself hAD hnd1 ht1
+    hnames (fun f hf => hfit f (by simp [Tree.records, hf])) hself hAD hnd1 ht1
   rw [applyAll_cons_ok o root (by simpa [applyNode, metaOf] using h1), hf]
   refine ⟨rfl, ?_⟩
   intro p hp
@@ -264,8 +285,7 @@ theorem untar_into_empty_dir (o : Opts) (root : List Name) (fs : FS) (r : FileRe
     by_cases h0 : r.mtime = 0
     · simp [h0, metaOf]
     · simp [h0]
-  rw [this]
-  rfl
+  rw [this, permsAttr_dir]
 
 /-! ### the statement is not vacuous -/
 
@@ -280,10 +300,17 @@ def nTop : Bytes := [116, 111, 112]                           -- "top"
 def pSub : Bytes := nSub                                      -- path "sub"
 def tgt : Bytes := [47, 101, 116, 99]                         -- "/etc"
 
+def xaA : Bytes × Bytes := ([117, 115, 101, 114, 46, 97], [1])     -- user.a = 01
+def xaB : Bytes × Bytes := ([117, 115, 101, 114, 46, 98], [2])     -- user.b = 02
+
+def aSrv : Attr := { owner := some (3, 3), mode := some 0o755, xattrs := [] }
+/-- the attributes of the existing /srv/dest of `fs1`: set-group-ID directory with an xattr of its own -/
+def aOld : Attr := { owner := some (5, 5), mode := some 0o2700, xattrs := [xaB] }
+
 /-- /srv exists, /srv/dest does not -/
-def fs0 : FS := [([nSrv], .dir (some 3) (some 4))]
+def fs0 : FS := [([nSrv], .dir aSrv (some 4))]
 /-- /srv/dest exists and is empty -/
-def fs1 : FS := [([nSrv], .dir (some 3) (some 4)), ([nSrv, nDest], .dir (some 5) (some 6))]
+def fs1 : FS := [([nSrv], .dir aSrv (some 4)), ([nSrv, nDest], .dir aOld (some 6))]
 
 def root : List Name := [nSrv, nDest]
 def opts : Opts := ⟨false, false⟩
@@ -292,14 +319,15 @@ def rec0 : FileRec :=
   { base := [], path := [dot], parent := [], kind := .dir, mode := 0o40755, uid := 0, gid := 0, mtime := 11,
     size := 0, data := [], target := [], major := 0, minor := 0, xattrs := [] }
 
-/-- the root record: a directory, mtime 11 -/
-def rRoot : FileRec := rec0
-/-- "sub": a directory, mtime 7, holding a file and a symbolic link -/
-def rSub : FileRec := { rec0 with base := nSub, path := pSub, parent := [dot], mtime := 7 }
-/-- "sub/f": a regular file "abc", mtime 5 -/
+/-- the root record: a directory, mtime 11, one extended attribute -/
+def rRoot : FileRec := { rec0 with xattrs := [xaA] }
+/-- "sub": a set-group-ID directory (02775) of 1000:100, mtime 7, holding a file and a symbolic link -/
+def rSub : FileRec :=
+  { rec0 with base := nSub, path := pSub, parent := [dot], mode := 0o42775, uid := 1000, gid := 100, mtime := 7 }
+/-- "sub/f": a set-user-ID regular file (04755) "abc" of 1000:100, mtime 5, one extended attribute -/
 def rF : FileRec :=
-  { rec0 with base := nF, path := pSub ++ [slash] ++ nF, parent := pSub, kind := .reg, mode := 0o100644,
-              mtime := 5, size := 3, data := [97, 98, 99] }
+  { rec0 with base := nF, path := pSub ++ [slash] ++ nF, parent := pSub, kind := .reg, mode := 0o104755,
+              uid := 1000, gid := 100, mtime := 5, size := 3, data := [97, 98, 99], xattrs := [xaA] }
 /-- "sub/l" -> "/etc" -/
 def rL : FileRec :=
   { rec0 with base := nL, path := pSub ++ [slash] ++ nL, parent := pSub, kind := .symlink, mode := 0o120777,
@@ -311,7 +339,7 @@ def kids : List Tree := [.dir rSub [.leaf rF, .leaf rL], .dir rTop []]
 
 def archive : Bytes := (Tree.dir rRoot kids).body
 
-theorem rootOK_of (fs : FS) (h1 : fs.get [nSrv] = some (.dir (some 3) (some 4)))
+theorem rootOK_of (fs : FS) (h1 : fs.get [nSrv] = some (.dir aSrv (some 4)))
     (h2 : ∀ t a, fs.get root ≠ some (.symlink t a)) : RootOK fs root where
   ne := by decide
   comps_valid := by decide
@@ -332,7 +360,7 @@ theorem rootOK_0 : RootOK fs0 root := by
 theorem rootOK_1 : RootOK fs1 root := by
   refine rootOK_of fs1 (by decide) ?_
   intro t a h
-  have : fs1.get root = some (.dir (some 5) (some 6)) := by decide
+  have : fs1.get root = some (.dir aOld (some 6)) := by decide
   rw [this] at h
   cases h
 
@@ -357,13 +385,25 @@ theorem empty_1 : ∀ p, root <+: p → p ≠ root → fs1.get p = none := by
   have h2 : (p == [nSrv, nDest]) = false := this
   simp [fs1, FS.get, List.lookup_cons, beq_false_of_longer hp, h2]
 
+theorem root_xattrs_ok : XattrsOK rRoot.xattrs := by
+  simp [XattrsOK, rRoot, rec0, xaA]
+
 theorem kids_wf : Tree.WFList rRoot.path [rRoot.path] kids := by
-  simp [kids, Tree.WFList, Tree.WF, LeafWF, XattrsOK, rRoot, rSub, rF, rL, rTop, rec0]
+  simp [kids, Tree.WFList, Tree.WF, LeafWF, XattrsOK, rRoot, rSub, rF, rL, rTop, rec0, xaA]
   decide
 
 theorem kids_names : (Tree.dir rRoot kids).Names := by
   simp only [kids, Tree.Names, Tree.NamesList]
   decide
+
+/-- the only symbolic link of the tree carries no extended attribute -/
+theorem kids_fit (o : Opts) : ∀ f ∈ (Tree.dir rRoot kids).records, XattrsFit o f := by
+  intro f hf
+  simp only [kids, Tree.records, Tree.recordsList, List.append_nil, List.cons_append, List.nil_append,
+    List.mem_cons, List.not_mem_nil, or_false] at hf
+  intro _ hk kv hkv
+  rcases hf with rfl | rfl | rfl | rfl | rfl <;>
+    first | (rcases hk with hk | hk <;> cases hk; done) | cases hkv
 
 theorem archive_ok : tarStream (Tree.dir rRoot kids).records = some archive :=
   tarStream_tree rRoot kids rfl kids_wf
@@ -372,30 +412,40 @@ theorem archive_ok : tarStream (Tree.dir rRoot kids).records = some archive :=
 theorem facts_0 :
     (untarFS opts root fs0 archive).2 = true ∧
     ∀ p, root <+: p → ((untarFS opts root fs0 archive).1).get p =
-      (((root, Obj.dir (stampOf opts rRoot) (mtimeOf rRoot)) :: Tree.expectList opts root kids).lookup p) :=
+      (((root, Obj.dir (attrOfRec opts rRoot) (mtimeOf rRoot)) :: Tree.expectList opts root kids).lookup p) :=
   untar_creates_tree opts root fs0 rRoot kids archive rootOK_0 short_root fresh_0 rfl
-    (by simp [XattrsOK, rRoot, rec0]) (by decide) kids_wf kids_names archive_ok
+    root_xattrs_ok (by decide) kids_wf kids_names (kids_fit opts) archive_ok
+
+/-- owner 0:0, mode 0755 -/
+def aDir (xs : List (Bytes × Bytes)) : Attr := { owner := some (0, 0), mode := some 0o755, xattrs := xs }
+/-- "sub": 1000:100, the set-group-ID bit is there -/
+def aSub : Attr := { owner := some (1000, 100), mode := some 0o2775, xattrs := [] }
+/-- "sub/f": 1000:100, the set-user-ID bit is there (`chown` came before `chmod`), and the xattr -/
+def aF : Attr := { owner := some (1000, 100), mode := some 0o4755, xattrs := [xaA] }
+/-- "sub/l": owner only -/
+def aL : Attr := { owner := some (0, 0), mode := none, xattrs := [] }
 
 /-- the expected content, evaluated -/
 theorem expected_0 :
-    (root, Obj.dir (stampOf opts rRoot) (mtimeOf rRoot)) :: Tree.expectList opts root kids =
-      [(root, .dir (some 16877) (some 11)),
-       (root ++ [nSub], .dir (some 16877) (some 7)),
-       (root ++ [nSub, nF], .file [97, 98, 99] (some 33188) (some 5)),
-       (root ++ [nSub, nL], .symlink tgt (some 41471)),
-       (root ++ [nTop], .dir (some 16877) none)] := by
+    (root, Obj.dir (attrOfRec opts rRoot) (mtimeOf rRoot)) :: Tree.expectList opts root kids =
+      [(root, .dir (aDir [xaA]) (some 11)),
+       (root ++ [nSub], .dir aSub (some 7)),
+       (root ++ [nSub, nF], .file [97, 98, 99] aF (some 5)),
+       (root ++ [nSub, nL], .symlink tgt aL),
+       (root ++ [nTop], .dir (aDir []) none)] := by
   simp only [Tree.expectList, Tree.layList, Tree.lay, kids]
   decide
 
 /-- hence: both directories that got children after they were created end with their archived mtime set
-    explicitly, the file and the link are there, and nothing else is beneath the destination -/
+    explicitly, the file (set-user-ID bit and xattr included) and the link are there, and nothing else is
+    beneath the destination -/
 example :
     (untarFS opts root fs0 archive).2 = true ∧
-    (untarFS opts root fs0 archive).1.get root = some (.dir (some 16877) (some 11)) ∧
-    (untarFS opts root fs0 archive).1.get (root ++ [nSub]) = some (.dir (some 16877) (some 7)) ∧
-    (untarFS opts root fs0 archive).1.get (root ++ [nSub, nF]) = some (.file [97, 98, 99] (some 33188) (some 5)) ∧
-    (untarFS opts root fs0 archive).1.get (root ++ [nSub, nL]) = some (.symlink tgt (some 41471)) ∧
-    (untarFS opts root fs0 archive).1.get (root ++ [nTop]) = some (.dir (some 16877) none) ∧
+    (untarFS opts root fs0 archive).1.get root = some (.dir (aDir [xaA]) (some 11)) ∧
+    (untarFS opts root fs0 archive).1.get (root ++ [nSub]) = some (.dir aSub (some 7)) ∧
+    (untarFS opts root fs0 archive).1.get (root ++ [nSub, nF]) = some (.file [97, 98, 99] aF (some 5)) ∧
+    (untarFS opts root fs0 archive).1.get (root ++ [nSub, nL]) = some (.symlink tgt aL) ∧
+    (untarFS opts root fs0 archive).1.get (root ++ [nTop]) = some (.dir (aDir []) none) ∧
     (untarFS opts root fs0 archive).1.get (root ++ [nSub, nTop]) = none := by
   obtain ⟨h1, h2⟩ := facts_0
   rw [expected_0] at h2
@@ -405,24 +455,42 @@ example :
 /-- cross-check by evaluation of the model itself (the theorem is not used) -/
 example :
     (untarFS opts root fs0 archive).2 = true ∧
-    (untarFS opts root fs0 archive).1.get root = some (.dir (some 16877) (some 11)) ∧
-    (untarFS opts root fs0 archive).1.get (root ++ [nSub]) = some (.dir (some 16877) (some 7)) ∧
-    (untarFS opts root fs0 archive).1.get (root ++ [nSub, nL]) = some (.symlink tgt (some 41471)) := by
+    (untarFS opts root fs0 archive).1.get root = some (.dir (aDir [xaA]) (some 11)) ∧
+    (untarFS opts root fs0 archive).1.get (root ++ [nSub]) = some (.dir aSub (some 7)) ∧
+    (untarFS opts root fs0 archive).1.get (root ++ [nSub, nF]) = some (.file [97, 98, 99] aF (some 5)) ∧
+    (untarFS opts root fs0 archive).1.get (root ++ [nSub, nL]) = some (.symlink tgt aL) := by
   decide +kernel
 
-/-- onto the existing empty directory `/srv/dest` (stamp 5, mtime 6): same content; the destination gets
-    the archived stamp and mtime -/
+/-- onto the existing empty directory `/srv/dest` (5:5, mode 02700, user.b, mtime 6): same content; the
+    destination gets the archived owner, mode and mtime, and the archived xattr next to its own -/
 example :
     (untarFS opts root fs1 archive).2 = true ∧
-    (untarFS opts root fs1 archive).1.get root = some (.dir (some 16877) (some 11)) ∧
-    (untarFS opts root fs1 archive).1.get (root ++ [nSub]) = some (.dir (some 16877) (some 7)) := by
-  obtain ⟨h1, h2⟩ := untar_into_empty_dir opts root fs1 rRoot kids archive (some 5) (some 6) rootOK_1
-    short_root (by decide) empty_1 rfl (by simp [XattrsOK, rRoot, rec0]) (by decide) kids_wf kids_names
+    (untarFS opts root fs1 archive).1.get root = some (.dir (aDir [xaB, xaA]) (some 11)) ∧
+    (untarFS opts root fs1 archive).1.get (root ++ [nSub]) = some (.dir aSub (some 7)) := by
+  obtain ⟨h1, h2⟩ := untar_into_empty_dir opts root fs1 rRoot kids archive aOld (some 6) rootOK_1
+    short_root (by decide) empty_1 rfl root_xattrs_ok (by decide) kids_wf kids_names (kids_fit opts)
     archive_ok
   refine ⟨h1, ?_, ?_⟩
   · rw [h2 _ (List.prefix_refl _)]; decide
   · rw [h2 _ (List.prefix_append _ _)]
     simp only [Tree.expectList, Tree.layList, Tree.lay, kids]
+    decide
+
+/-- the same with `noSameOwner`: the destination keeps its owner and its xattrs and gets the archived mode;
+    with `noSamePermissions`: it keeps its mode, set-group-ID bit included, across the `chown` -/
+example :
+    (untarFS ⟨true, false⟩ root fs1 archive).1.get root =
+      some (.dir { owner := some (5, 5), mode := some 0o755, xattrs := [xaB] } (some 11)) ∧
+    (untarFS ⟨false, true⟩ root fs1 archive).1.get root =
+      some (.dir { owner := some (0, 0), mode := some 0o2700, xattrs := [xaB, xaA] } (some 11)) := by
+  constructor
+  · rw [(untar_into_empty_dir ⟨true, false⟩ root fs1 rRoot kids archive aOld (some 6) rootOK_1
+      short_root (by decide) empty_1 rfl root_xattrs_ok (by decide) kids_wf kids_names (kids_fit _)
+      archive_ok).2 _ (List.prefix_refl _)]
+    decide
+  · rw [(untar_into_empty_dir ⟨false, true⟩ root fs1 rRoot kids archive aOld (some 6) rootOK_1
+      short_root (by decide) empty_1 rfl root_xattrs_ok (by decide) kids_wf kids_names (kids_fit _)
+      archive_ok).2 _ (List.prefix_refl _)]
     decide
 
 end RoundTripExample
